@@ -148,3 +148,47 @@ def shape_signature(spec):
         kinds = sorted(f["kind"] + ("*" if f["target"] == c["name"] else "") for f in c["fields"])
         sig.append(f"d{d}:" + ",".join(kinds))
     return "|".join(sorted(sig))
+
+
+def render_split(spec):
+    """two modules <module>_a / <module>_b that import each other's classes only under TYPE_CHECKING, so that
+    annotations naming a class of the other module are unresolvable forward references at run time.
+    A child class lives in the module of its parent.  -> {modname: source}"""
+    by = {c["name"]: c for c in spec["classes"]}
+    side = {}
+    for i, c in enumerate(spec["classes"]):
+        side[c["name"]] = side[c["parent"]] if c["parent"] else ("a" if i % 2 == 0 else "b")
+    spec["side"] = side
+    out = {}
+    for s_ in ("a", "b"):
+        other = "b" if s_ == "a" else "a"
+        names_other = [n for n, sd in side.items() if sd == other]
+        lines = ["from __future__ import annotations", "from dataclasses import dataclass, field",
+                 "from typing_extensions import List, Optional, Set, Type, TYPE_CHECKING", "from enum import Enum",
+                 "from datetime import datetime", f"from {spec['module']}_enum import Color", ""]
+        if names_other:
+            lines += ["if TYPE_CHECKING:", f"    from {spec['module']}_{other} import " + ", ".join(names_other), ""]
+        emitted = []
+
+        def emit(nm):
+            if nm in emitted or side[nm] != s_:
+                return
+            c = by[nm]
+            if c["parent"]:
+                emit(c["parent"])
+            emitted.append(nm)
+            base = f"({c['parent']})" if c["parent"] else ""
+            lines.append("@dataclass(eq=False)")
+            lines.append(f"class {nm}{base}:")
+            if not c["fields"]:
+                lines.append("    pass")
+            for f in c["fields"]:
+                ann, dflt = annotation(f)
+                lines.append(f"    {f['name']}: {ann} = {dflt}")
+            lines.extend(["", ""])
+
+        for nm in spec["order"]:
+            emit(nm)
+        out[f"{spec['module']}_{s_}"] = "\n".join(lines)
+    out[f"{spec['module']}_enum"] = "from enum import Enum\n\n\nclass Color(Enum):\n    R = 'r'\n    G = 'g'\n    B = 'b'\n"
+    return out
